@@ -106,7 +106,10 @@ def gen_cases(rng, tier):
     # the same histories for a caller whose RawWaker carries a null data pointer ('19 1 | ..')
     nd = [c.replace("19 |", "19 1 |", 1) for c in cases[::3] if c.startswith("19 |")]
     d["null_data_waker_cases"] = len(nd)
-    cases += nd
+    # ... and for a caller whose clone returns a DISTINCT waker, one record per clone ('19 2 | ..')
+    dc = [c.replace("19 |", "19 2 |", 1) for c in cases[1::3] if c.startswith("19 |")]
+    d["distinct_clone_waker_cases"] = len(dc)
+    cases += nd + dc
     # operations issued from other threads on wakers retained after the poll returned
     nthr = {"quick": 250, "search": 300}.get(tier, 3000)
     r2 = rng.fork("threads")
@@ -145,7 +148,7 @@ def model_line(l):
     if l.startswith("105 "):
         return "0 |"
     if l.startswith("19 "):
-        # '19 1 | H': the caller's RawWaker has a NULL data pointer (its state lives in a static) — which is none of the model's business
+        # '19 1 | H' / '19 2 | H': the caller's RawWaker has a NULL data pointer / its clone returns a distinct waker — none of the model's business
         return "19 |" + l.split("|", 1)[1]
     if not l.startswith("119 "):
         return l
